@@ -1,8 +1,11 @@
 #!/bin/bash
-# try_seed.sh <seeded-dir-name> <check id> [tier]: apply the seeded change to /repo, run the check, undo.
+# try_seed.sh <seeded-dir-name> <check id> [tier]: run a check against a scratch worktree of /repo with the
+# seeded change applied (VERIF_REPO_SRC), then remove the worktree. /repo itself is not touched.
 S=/verif/seeded/$1; C=$2; T=${3:-quick}
-cd /repo && git diff --quiet || { echo "REPO DIRTY"; exit 2; }
-git apply "$S/patch.diff" || { echo "PATCH DOES NOT APPLY"; exit 2; }
-cd /verif && VERIF_NOCONFIRM=${VERIF_NOCONFIRM:-} ./check $C --tier $T --no-evidence > /tmp/try_$1_$C.log 2>&1; RC=$?
-git -C /repo checkout -- .
+W=/tmp/wt/try_$1_$C
+git -C /repo worktree remove --force $W >/dev/null 2>&1
+git -C /repo worktree add --detach $W >/dev/null 2>&1 || { echo "WORKTREE FAILED"; exit 2; }
+(cd $W && git apply -3 "$S/patch.diff" >/dev/null 2>&1) || { echo "$1: PATCH DOES NOT APPLY"; git -C /repo worktree remove --force $W; exit 2; }
+cd /verif && VERIF_REPO_SRC=$W/src VERIF_NOCONFIRM=${VERIF_NOCONFIRM:-1} VERIF_JOBS=${VERIF_JOBS:-16} ./check $C --tier $T --no-evidence > /tmp/try_$1_$C.log 2>&1; RC=$?
+git -C /repo worktree remove --force $W
 echo "$1 vs $C/$T: exit=$RC  $(grep -c '^VIOLATION' /tmp/try_$1_$C.log) violation lines"; grep -m2 -A1 '^VIOLATION' /tmp/try_$1_$C.log | cut -c1-300; tail -1 /tmp/try_$1_$C.log | cut -c1-250
